@@ -23,7 +23,7 @@ META = {
              "statements and the injection site is nested (depth >= 1)"),
     "required": ["monitor:injection"] + [f"kind:{k}" for k in KINDS] + ["variant:case-index-negative", "variant:case-index-too-large",
                                                                          "variant:disagree-through-if-else",
-                                                                         "variant:exit-through-branch", "variant:foreign-wire-from-root",
+                                                                         "variant:exit-through-branch", "variant:foreign-wire-from-root", "variant:order-port-as-value",
                                                                          "feature:site-depth-0",
                                                                          "feature:site-depth-1",
                                                                          "feature:site-depth-2+"],
@@ -220,6 +220,19 @@ def make_interp(kind, site):
             if where != "region":
                 return False
             self.injected = True
+            v = sum(map(ord, st["id"])) % 3
+            if v == 0:
+                # the state-order port of a sibling node (also of a Call) is not a dataflow port either
+                from hugr import OutPort
+
+                sib = [n for n in b.hugr.children(b.parent_node)
+                       if _is(b.hugr, n, (ops.Call, ops.LoadConst, ops.Custom, ops.ExtOp, ops.Input))]
+                calls = [n for n in sib if _is(b.hugr, n, (ops.Call,))]
+                if sib:
+                    src = (calls or sib)[-1]
+                    COUNT["order-port-as-value"] = COUNT.get("order-port-as-value", 0) + 1
+                    expect(lambda: b.add_op(ops.Noop(), OutPort(src, -1)), ValueError, "add_op(order port)")
+                    return
             c = b.add_const(val.TRUE, b.parent_node)
             expect(lambda: b.add_op(ops.Noop(), c.out(0)), ValueError, "add_op(const port)")
 
